@@ -353,4 +353,5 @@ pub fn run(ctx: &mut Ctx) {
     let _ = al::v0;
     crate::spaces::render_probes(ctx, &["if", "?:", "and", "or"]);
     crate::spaces::width_probes(ctx);
+    crate::spaces::type_grid_probes(ctx, &["if", "?:", "and", "or"]);
 }
